@@ -23,7 +23,7 @@ for path, old, new in ns["EDITS"]:
     open(p, "w").write(s)
 PY
 fi
-DM_REPO="$MUT" /verif/check "$ID" "$@"
+DM_REPO="$MUT" DMV_EVIDENCE_DIR=/tmp/dmv-scratch-evidence /verif/check "$ID" "$@"
 rc=$?
 rm -rf "$MUT"
 echo "mutant exit code: $rc"
